@@ -64,7 +64,8 @@ impl<'a> Gen<'a> {
                 let g = self.prog.new_gate();
                 steps.push(Step::Gate(g));
             } else if is_future && r < self.cfg.p_gate + self.cfg.p_yield {
-                steps.push(Step::Yield);
+                // mostly a proper yield; sometimes a wake that lands during the poll while the body simply carries on
+                if self.rng.chance(1, 4) { steps.push(Step::WakeOnly); steps.push(Step::Pause); } else { steps.push(Step::Yield); }
             } else if depth == 0 && self.rng.below(100) < self.cfg.p_nest {
                 if let Some(c) = self.nested(obj, is_future, parent) { steps.push(Step::Nest(c)); }
             }
@@ -215,6 +216,15 @@ pub fn mixed(rng: &mut Rng, profile: &'static str, cfg: &Cfg, run_seed: u64) -> 
     }
 
     let mut prog = g.prog;
+    // A drop during unwinding drains the queue on the unwinding thread; the crate marks every queue that such a thread runs as
+    // panicked, so this is only used when the operations of the mortal object never reach into other objects.
+    if let Some(m) = prog.mortal {
+        let mortal_nests = prog.ops.iter().any(|o| o.obj == m && o.body.iter().any(|s| matches!(s, Step::Nest(_))));
+        if !mortal_nests && rng.chance(1, 3) {
+            let t = rng.below(prog.threads.len() as u64) as usize;
+            if let Some(i) = prog.threads[t].iter().position(|a| *a == TAct::ReleaseMortal) { prog.threads[t][i] = TAct::PanicRelease; }
+        }
+    }
     // a job of a lower-numbered immortal object may be the one that drops the last owner of the mortal object
     if let Some(m) = prog.mortal {
         if rng.chance(1, 3) && !pool0 && !allow_polldrop && prog.pool >= prog.n_obj {
@@ -531,7 +541,7 @@ pub fn validate(prog: &Program) -> Result<(), String> {
                 }
                 TAct::DropHeld(o) => { open_fs.retain(|x| x != o); }
                 TAct::Resume(o, _) | TAct::HandResumer(o) => { open_res.retain(|x| x != o); }
-                TAct::ReleaseMortal => { if nb_only { return Err(format!("thread {} drops its owner inside a non-blocking window", t)); } released = true; }
+                TAct::ReleaseMortal | TAct::PanicRelease => { if nb_only { return Err(format!("thread {} drops its owner inside a non-blocking window", t)); } released = true; }
                 TAct::PipeCreate(_) | TAct::Consume(..) => { if nb_only { return Err("pipe act in non-blocking window".into()); } }
                 TAct::DropStream(_) | TAct::Push(_) | TAct::Attempt(..) | TAct::AttemptJoin(_) | TAct::Stash(_) | TAct::WaitStart(_) | TAct::Checkpoint => {}
             }
